@@ -65,7 +65,10 @@ func c05Case(c *mon.Ctx, i int, record bool) {
 	var o *mon.Obj
 	var desc string
 	var isSeed bool
-	if base := len(W.Objs) + c.Pick(12000, 400000) + directedCount(c)/c.Pick(6, 1); i >= base+c05PairCases(c)+c05LongCases {
+	if base := len(W.Objs) + c.Pick(12000, 400000) + directedCount(c)/c.Pick(6, 1); i >= base+c05PairCases(c)+c05LongCases+c05CfgCases(c) {
+		c05CfgGenHistory(c, i-base-c05PairCases(c)-c05LongCases-c05CfgCases(c))
+		return
+	} else if i >= base+c05PairCases(c)+c05LongCases {
 		c05CfgHistory(c, i-base-c05PairCases(c)-c05LongCases)
 		return
 	} else if i >= base+c05PairCases(c) {
@@ -248,10 +251,11 @@ func init() {
 				return err
 			}
 			nSeeds = len(W.Objs)
+			cfgWorkBuild(c)
 			return nil
 		},
 		Cases: func(c *mon.Ctx) int {
-			return nSeeds + c.Pick(12000, 400000) + directedCount(c)/c.Pick(6, 1) + c05PairCases(c) + c05LongCases + c05CfgCases(c)
+			return nSeeds + c.Pick(12000, 400000) + directedCount(c)/c.Pick(6, 1) + c05PairCases(c) + c05LongCases + c05CfgCases(c) + c05CfgGenCases(c)
 		},
 		RunCase: func(c *mon.Ctx, i int) { c05Case(c, i, c.Only >= 0 || i%c05FreshEvery == 0) },
 		Aux:     map[string]func(c *mon.Ctx){"io": c05IOAux, "env": c05EnvAux},
@@ -262,6 +266,11 @@ func init() {
 			gates = append(gates, c05EnvPhase(c, r, ev)...)
 			ev.Coverage["configuration_history_steps"] = r.Counters["configuration_history_steps"]
 			ev.Coverage["long_repetition_runs"] = r.Counters["long_repetition_runs"]
+			ev.Coverage["generated_configuration_history_steps"] = r.Counters["generated_configuration_history_steps"]
+			ev.Coverage["generated_configuration_history_lints"] = r.SetKeys("generated_configuration_history_lints")
+			if r.Counters["generated_configuration_history_steps"] < 500 {
+				gates = append(gates, "too few generated configuration history steps compared")
+			}
 			if r.Counters["configuration_history_steps"] < 500 {
 				gates = append(gates, "too few configuration-switching history steps compared")
 			}
@@ -575,6 +584,76 @@ func c05CfgHistory(c *mon.Ctx, k int) {
 				for _, df := range dropClock(day, mon.Diff(ref, cmp, false, false)) {
 					name := strings.SplitN(df, ":", 2)[0]
 					c.V("configuration-history|"+name, fmt.Sprintf("lint %s on %s under configuration %q gives a different result than the first time this process linted it under that configuration - in between it was linted under other configurations (order %v, round %d): %s", name, o0.Name, d.Label, order, round, clipS(df, 300)), name, inputs(o0), map[string]any{"configuration": d.Text})
+				}
+			}
+		}
+	}
+}
+
+// ---- generated configuration histories ----
+//
+// The four hand-written documents above know the options shipped today. This part takes every Configurable lint of
+// the live registry with C11's generated documents (fields by reflection): ONE registry filtered to that lint is walked
+// through all its valid-TOML documents in a seeded order, twice, over the objects of the lint's kind; every (object,
+// document) result must equal the first one this process saw for that pair - whatever configuration the registry
+// carried in between.
+
+func c05CfgGenCases(c *mon.Ctx) int { return len(c11Lints) * c.Pick(1, 3) }
+
+func c05CfgGenHistory(c *mon.Ctx, k int) {
+	if len(c11Lints) == 0 {
+		return
+	}
+	li := k % len(c11Lints)
+	cl := c11Lints[li]
+	var docs []cfgWorkCase
+	for _, cs := range cfgWork {
+		if cs.lint == li {
+			docs = append(docs, cs)
+		}
+	}
+	rng := c.Rng(-51, k)
+	rng.Shuffle(len(docs), func(a, b int) { docs[a], docs[b] = docs[b], docs[a] })
+	reg, err := lint.GlobalRegistry().Filter(lint.FilterOptions{IncludeNames: []string{cl.info.Name}})
+	if err != nil {
+		return
+	}
+	objs := cfgWorkObjs(c)[cl.info.Kind]
+	first := map[string]mon.SD{}
+	day := today()
+	c.R.Distinct("generated_configuration_history_lints", cl.info.Name)
+	for round := 0; round < 2; round++ {
+		for di, cs := range docs {
+			cfg, err := lint.NewConfigFromString(cs.doc)
+			if err != nil {
+				continue
+			}
+			reg.SetConfiguration(cfg)
+			for oi, o0 := range objs {
+				o := o0
+				if (oi+round+di)%3 == 1 {
+					if o = o0.Reparse(); o == nil {
+						continue
+					}
+				}
+				rs, pv, _ := o.Lint(reg)
+				c.R.Count("evaluations", 1)
+				if pv != nil || rs == nil {
+					continue
+				}
+				sd, ok := mon.SnapOf(rs)[cl.info.Name]
+				if !ok {
+					continue
+				}
+				key := fmt.Sprintf("%d|%d", oi, di)
+				f, seen := first[key]
+				if !seen {
+					first[key] = sd
+					continue
+				}
+				c.R.Count("generated_configuration_history_steps", 1)
+				if f != sd && !(c05ClockLints[cl.info.Name] && today() != day) {
+					c.V("configuration-history|"+cl.info.Name, fmt.Sprintf("lint %s on %s under %s gives %s %q, the first time this process linted it under that configuration it gave %s %q - in between the registry carried other configurations", cl.info.Name, o0.Name, cs.desc, lint.LintStatus(sd.Status), clipS(sd.Details, 80), lint.LintStatus(f.Status), clipS(f.Details, 80)), cl.info.Name, inputs(o0), map[string]any{"configuration": cs.doc})
 				}
 			}
 		}
